@@ -126,6 +126,8 @@ fn make_real_tree(sc: &Scenario) -> std::io::Result<()> {
             std::fs::create_dir_all(parent)?;
         }
         if t.exists() {
+            // (`link` does not follow a symbolic link: name its target)
+            let t = std::fs::canonicalize(&t).unwrap_or(t);
             std::fs::hard_link(&t, &a)?;
         }
     }
